@@ -343,8 +343,11 @@ PHONE_BAD = ['abc', '5551234567', '+1 (555 123-4567', '+12', '+1 555 123 4567 89
 class Node:
     def __init__(self):
         self.order, self.fields, self.objs, self.arrs = [], {}, {}, {}
+        self.offend = None        # element of an array of objects that is not an object in the document (skipped as a whole)
 
     def item(self):
+        if self.offend is not None:
+            return self.offend
         out = []
         for k in self.order:
             if k in self.fields:
@@ -402,6 +405,10 @@ def gen_node(rng, arch, cfg, depth=0, schema=None):
             sub_schema = [(new_key(rng, sub_used), rng.choice(all_types(arch))) for _ in range(rng.randrange(1, 4))]
             n = rng.randrange(1 if arch == 'xml' else 0, 4)
             node.arrs[k] = [gen_node(rng, arch, cfg, depth + 1, sub_schema) for _ in range(n)]
+            if arch in ('json', 'msgpack') and 'mis' in cfg['classes'] and cfg.get('mis', 'skip') == 'skip':
+                for el in node.arrs[k]:
+                    if rng.random() < cfg['offence_rate'] * 0.5:
+                        el.offend = rng.choice([('i', 7), ('s', 'abc'), ('b', True), ('a', [('i', 1), ('i', 2)]), ('f', '3ff8000000000000'), ('n',)])
             node.arrs[k + '\0schema'] = sub_schema
             node.order.append(k)
     rng.shuffle(node.order)
@@ -514,6 +521,8 @@ def evaluate(prog, node, path, log, errors, arch='json'):
             if arr is not None:
                 for i, el in enumerate(arr):
                     log.append(('rec', {'elem': i}))
+                    if el.offend is not None:
+                        continue                              # not an object: the element is skipped as a whole, the following ones keep their positions
                     evaluate(op['sub'], el, path + [k, i] + (['object'] if arch == 'xml' else []), log, errors, arch)
             log.append(('rec', {'close': 'objarray', 'ok': arr is not None}))
 
